@@ -36,8 +36,12 @@ def build(t, parent=None, ids=True):
         _counter[0] += 1
         i = f"n{_counter[0]}"
         t[0] = i
-    n = Node(name, id=i)
-    set_content(n, content)
+    # both public ways of giving a node its content are used (constructor argument / setter), alternating with the child count
+    if type(content) is str and len(kids) % 2 == 0:
+        n = Node(name, id=i, content=content)
+    else:
+        n = Node(name, id=i)
+        set_content(n, content)
     n.tail = tail
     n.prefix = prefix
     for k, v in attrs:
